@@ -655,6 +655,10 @@ func (r *Reconciler) abortJobIfReserveOnSameNode(ctx context.Context, job *sev1a
 	pod := &corev1.Pod{}
 	podNamespacedName := types.NamespacedName{Namespace: job.Spec.PodRef.Namespace, Name: job.Spec.PodRef.Name}
 	err := r.Client.Get(ctx, podNamespacedName, pod)
+	if err != nil && !errors.IsNotFound(err) {
+		// the check cannot be made now; passing it would record the reservation as scheduled and the check is never repeated
+		return false, err
+	}
 	if err == nil {
 		scheduledNodeName := reservationObj.GetScheduledNodeName()
 		if scheduledNodeName != "" && scheduledNodeName == pod.Spec.NodeName {
